@@ -32,7 +32,7 @@ REQUIRED = ["calls.finite.is_finite", "calls.PolyPerms.is_polynomial", "calls.In
             "calls.InsertionEncodablePerms.is_insertion_encodable_rightmost", "calls.InsertionEncodablePerms.is_insertion_encodable_maximum",
             "calls.Av.is_finite", "calls.Av.is_polynomial", "calls.Av.is_insertion_encodable", "containers.checked", "oneshot.checked",
             "symmetry.checked", "enumeration.finite_confirmed", "enumeration.nonpoly_fib_checked", "enumeration.poly_confirmed",
-            "memo.poly_entries_checked", "memo.insenc_entries_checked", "cli.checked", "verdict.polynomial_true", "verdict.insenc_true", "verdict.finite_true"]
+            "av_history.sequences", "memo.poly_entries_checked", "memo.insenc_entries_checked", "cli.checked", "verdict.polynomial_true", "verdict.insenc_true", "verdict.finite_true"]
 MIN_NONTRIVIAL = 300
 CTX = None
 MON = None
@@ -253,7 +253,28 @@ def chk_history(ctx, target, others):
     chk_basis(ctx, target, full=False)
 
 
-CHECKS = {"basis": chk_basis, "enum": chk_enumeration, "history": chk_history}
+def chk_av_history(ctx, bases):
+    """class-level history: verdicts asked through Av objects that are created, dropped and re-created around
+    clear_cache (every call is judged by the Av monitors against the theorems for that object's own basis)"""
+    import gc
+
+    keep = []
+    for i, basis in enumerate(bases):
+        B = [Perm(b) for b in basis]
+        if i % 3 != 2:
+            Av.clear_cache()
+            gc.collect()
+        av = Av(B)
+        av.is_finite(), av.is_polynomial(), av.is_insertion_encodable()
+        if i % 4 == 0:
+            keep.append(av)  # some handles stay alive across clear_cache
+        del av
+    for av in keep:
+        av.is_finite(), av.is_polynomial(), av.is_insertion_encodable()
+    ctx.count("av_history.sequences")
+
+
+CHECKS = {"basis": chk_basis, "enum": chk_enumeration, "history": chk_history, "av_history": chk_av_history}
 
 
 # ---- workload ------------------------------------------------------------------------------------------------------------
@@ -317,4 +338,17 @@ def run(ctx, spec):
                     o.append(list(Perm(rng.choice(target)).rotate()))
                 others.append(o)
             chk_history(ctx, target, others)
+        for _ in range(max(2, spec["hist"] // 2)):
+            seq = []
+            for _ in range(rng.randint(4, 12)):
+                kind = rng.randrange(4)
+                if kind == 0:
+                    seq.append([rng.sample(range(k), k) for k in (rng.randint(2, 5) for _ in range(rng.randint(1, 3)))])
+                elif kind == 1:
+                    seq.append([list(range(rng.randint(2, 4))), list(range(rng.randint(2, 4)))[::-1]])  # finite
+                elif kind == 2:
+                    seq.append(rng.choice(single_witness_bases(rng, 1)))
+                else:
+                    seq.append([[1, 3, 0, 2], [2, 0, 3, 1]])
+            chk_av_history(ctx, seq)
         ctx.sample({"history_target": target, "n_other_bases": len(others)})
